@@ -33,8 +33,12 @@ CLAIMS = {
              "episodes), handleBlock_congr; plus decide-witnesses for the two ways it fails: the pinned store order "
              "(repaired in /repo) and a fault inside finish (known finding). Checked against the implementation by "
              "injecting one fault at each storage-call index of random sessions and redelivering.",
-        note="Known finding fault-site=finish (no small safe repair). The flash-level part (SpiFlash faults through "
-             "the updater) is exercised by the D5 fault suite when built; the theorem is at the storage-trait level.",
+        note="C18b transports this to the flash-level model: fault_retry_L2 (a transient failure of flash operation k "
+             "of a fragment's handling, every k outside finish: the call returns the error, the state satisfies "
+             "LawfulUpTo, redelivery gives the same outcome as the fault-free delivery and an equivalent abstraction; "
+             "re-programming identical bytes is idempotent), fault_retry_continue_L2, fault_retry_seq_L2 (any sequence "
+             "of such episodes). Known finding fault-site=finish (no small safe repair). Faults on read operations are "
+             "exercised by the oracle-only suite d5fr.",
         design_ref="DESIGN.md section 6 (C18)"),
     "C02": dict(
         text="recon_sound is proved in Lean for every N, block size, original data, contract-respecting matrix, "
@@ -125,10 +129,17 @@ CLAIMS = {
              "crash_in_finish_witness and orphan_block_restored_witness (a parity index is stored twice with different "
              "data after a crash between block and row: harmless on map-like stores, corrupting on NOR). On the real "
              "code: power loss at every mutating-op boundary of sampled sessions, recovery, completion, exact image.",
-        note="Known findings (no small safe repair): crash-site=finish, crash-site=row-lost. A crash after the firmware "
-             "slot's final mark leaves a completed, validating firmware slot and recovery reports none: accepted (the "
-             "update is complete). Liveness ('a full pass of the data always ends in Done') is checked by the harness, "
-             "not proved.",
+        note="C06b transports this to the flash-level model: crash_resume_resend_L2 / crash_resume_continue_L2 (for a "
+             "Lawful session whose headers are the newest pair: power lost before flash operation k of a fragment's "
+             "handling, for every k outside finish; reboot; try_recover_inner returns a session; the fragment re-sent and "
+             "any continuation give the same outcomes and an equivalent final abstraction as the uninterrupted session — "
+             "the interrupted state satisfies the relaxed invariant LawfulUpTo: one segment programmed without its "
+             "status byte, or one orphan parity block), crash_resume_lost_clean_L2 (k = 0). Not proved at flash level: "
+             "several power losses in one session, the interrupted fragment lost after one of its programs took effect "
+             "(the orphan case is the known finding), power loss inside start_update (header level: C13). Known findings "
+             "(no small safe repair): crash-site=finish, crash-site=row-lost. A crash after the firmware slot's final "
+             "mark leaves a completed, validating slot and recovery reports none: accepted. Liveness of the final full "
+             "pass is checked by the harness, not proved.",
         design_ref="DESIGN.md section 6 (C06)"),
     "C14": dict(
         text="Proved in Lean (model Fuota.Firmware / Fuota.Crc, a byte-accurate transcription of crc_valid incl. its read "
